@@ -560,8 +560,11 @@ harnesses! {
     c02_l2_dq { prop: C02, feat: "c02", tier: thorough, mode: leaf, unwind: 18, caps: "drop=1" } => |s| c06::data_w(s, 8, 0);
     // (pass-level step harnesses: src/step.rs is kept for the record, but its harnesses are not
     //  registered - the smallest one did not leave symbolic execution in 60 min, DESIGN.md 4/C02)
-    c05_func_log2_neg { prop: C05, feat: "c05", tier: quick, mode: full, unwind: 67, caps: "run=2,clone=1,drop=2" } => |s| c05::ev_func(s, 9, 10, 0);
     c12_device_select { prop: C12, feat: "c12", tier: thorough, mode: full, unwind: 60, caps: "run=1,clone=1,drop=1" } => |s| c12::device_select(s);
     c07_hex_4k { prop: C07, feat: "c07", tier: quick, mode: hex, unwind: 262, caps: "" } => |s| c07::hex_big(s, 4113);
     c07_hex_64k { prop: C07, feat: "c07", tier: thorough, mode: hex, unwind: 4104, caps: "" } => |s| c07::hex_big(s, 65568);
+    c05_bin_mul_edge { prop: C05, feat: "c05", tier: quick, mode: full, unwind: 3, caps: "run=2,clone=1,drop=2" } => |s| c05::ev_bin(s, 2, 3, 8);
+    c05_bin_div_edge { prop: C05, feat: "c05", tier: quick, mode: full, unwind: 3, caps: "run=2,clone=1,drop=2" } => |s| c05::ev_bin(s, 3, 4, 8);
+    c05_bin_rem_edge { prop: C05, feat: "c05", tier: quick, mode: full, unwind: 3, caps: "run=2,clone=1,drop=2" } => |s| c05::ev_bin(s, 4, 5, 8);
+    c05_func_log2_neg { prop: C05, feat: "c05", tier: thorough, mode: full, unwind: 7, caps: "run=2,clone=1,drop=2,loop:avra_lib::expr::Expr::run_nested.0=67" } => |s| c05::ev_func(s, 9, 10, 0);
 }
